@@ -1014,6 +1014,54 @@ def gen_pp_scan(src):
                        '`[start, ppNumberEnd p start)`; every iteration but the last consumes at least one byte, so `p.length + 1` units of fuel suffice')
 
 
+def gen_arm_order(src):
+    """the arms of the `while (*p)` loop of tokenize() in source order (they are tried in this order)"""
+    want = 'tokenize: the loop body has a shape the translator does not understand: '
+    arms = []
+    pending = None
+    for s in tokenize_loop_body(src):
+        if s[0] == 'decl' and s[1] == 'int' and s[3] is not None and s[3][0] == 'call' and s[3][2] == [('id', 'p')]:
+            pending = (s[2], s[3][1])                        # int ident_len = read_ident(p);
+            continue
+        if s[0] == 'expr' and s[1][0] == 'call' and s[1][1] == 'error_at':
+            arms.append('invalid')
+            continue
+        if s[0] != 'if' or s[3] is not None:
+            raise ExtractError(want + f'statement {s[0]}')
+        c = s[1]
+        body = repr(s[2])
+        if pending and c == ('id', pending[0]):
+            arms.append({'read_ident': 'ident', 'read_punct': 'punct'}.get(pending[1]) or pending[1])
+            pending = None
+        elif c[0] == 'call' and c[1] == 'startswith' and c[2][0] == ('id', 'p') and c[2][1][0] == 'str':
+            lit = c[2][1][1].replace('\\"', '"')
+            if lit == '//':
+                arms.append('line_comment')
+            elif lit == '/*':
+                arms.append('block_comment')
+            elif lit.endswith('"') and 'string_literal' in body:
+                arms.append('str:' + lit[:-1])
+            elif lit.endswith("'") and 'read_char_literal' in body:
+                arms.append('chr:' + lit[:-1])
+            else:
+                raise ExtractError(want + f'startswith arm {lit!r}')
+        elif c == ('bin', '==', ('un', '*', ('id', 'p')), ('chr', 10)):
+            arms.append('newline')
+        elif c == ('call', 'isspace', [('un', '*', ('id', 'p'))]):
+            arms.append('space')
+        elif 'TK_PP_NUM' in body:
+            arms.append('pp_number')
+        elif c == ('bin', '==', ('un', '*', ('id', 'p')), ('chr', 34)) and 'string_literal' in body:
+            arms.append('str:')
+        elif c == ('bin', '==', ('un', '*', ('id', 'p')), ('chr', 39)) and 'read_char_literal' in body:
+            arms.append('chr:')
+        else:
+            raise ExtractError(want + f'arm with condition {c}')
+    out = '/-- tokenize(): the arms of the `while (*p)` loop in the order they are tried (`str:<prefix>` / `chr:<prefix>`: literal arms) -/\n'
+    out += 'def tokenizeArms : List String := [' + ', '.join('"' + a.replace('\\', '\\\\').replace('"', '\\"') + '"' for a in arms) + ']\n'
+    return out
+
+
 def clang_fn(repo, cfile, name):
     docs = clang_ast(repo, cfile, name)
     fns = [d for d in docs if d.get('kind') == 'FunctionDecl' and d.get('name') == name
@@ -1161,6 +1209,7 @@ def gen_ppnum(repo, src):
     out += gen_pp_int_fn(src) + '\n'
     out += '-- ---------------------------------------------------------------- tokenize(): pp-number\n\n'
     out += gen_pp_scan(src) + '\n'
+    out += gen_arm_order(src) + '\n'
     out += '-- ---------------------------------------------------------------- tokenize_file\n\n'
     out += gen_tokenize_file(repo, src) + '\n'
     out += 'end ChibiVerif.Gen.PpNum\n'
